@@ -15,34 +15,34 @@
       for every input, `lc/lp/pb`, `1 ≤ dict_size ≤ 2^32`, `1 ≤ nice_len`, `depth_limit`, and every sound finder
       (HC4 is proved sound), the parse of the modelled normal encoder satisfies `parseRun` and denotes exactly the input.
 
-  PROVED HERE (`normal_parse_valid_partial` and the round trips built on it): the full statement UNDER THE
-  HYPOTHESIS `OptimiserOk` about the function `EncNormal.optimise` (the part of `get_next_symbol` from
-  `update_prices()` to `convert_opts()`): in every situation the call site can be in (all of which are hypotheses of
-  `OptimiserOk`: finder in step and sound, matches of the position valid, `rep_lens` real repetitions below `nice_len`,
-  `opts[1]` the literal or the byte-checked short rep, …) the symbols it hands out form a valid chain, the finder stays
-  in step and the matches kept for the next call belong to the next position.  Everything else is proved for all
-  inputs: the outer loop with its read-ahead bookkeeping (`loopSpec_valid`), the composition of the chains of all
-  steps (`chain_run`), and every EARLY EXIT of `get_next_symbol` (`nextCore_ok`): fewer than `MATCH_LEN_MIN` bytes
-  left; best repeated match ≥ `nice_len` (`rep_best` really is a repetition at `reps[rep_best]`); longest finder match
-  ≥ `nice_len`; "no match, no rep, bytes differ" (literal); `opt_end < MATCH_LEN_MIN` (literal, or the short rep only
-  after the byte comparison).  Probabilities, price tables, counters and the contents of `opts[]` are universally
-  quantified in all of this: they select the parse, they cannot make it invalid.
-
-  WHAT IS MISSING for `OptimiserOk` (the remaining insertion sites and the hand-out), precisely:
-   (1) the invariant over `opts[]` while `opt_cur` advances (`mainLoop`): for `i ≤ cur` the back-pointer chain of
-       `opts[i]` is a valid chain of `data[p .. p+i]` and `opts[i].state/reps` are the coder state after it
-       (`update_opt_state_and_reps` = `Coder.apply` along the last group); for `cur < i ≤ opt_end`, `opts[i]` is either
-       still at `INFINITY_PRICE` or holds a candidate valid from some `opts[j]`, `j ≤ cur`.  Insertion sites:
-       first part – long reps of all lengths (`firstRepPrices`), normal matches (`firstMatchLoop`);
-       `calc1_byte_prices` – literal, short rep (byte check), literal + rep0 (`get_match_len2(1, reps[0], …)`);
-       `calc_long_rep_prices` – reps of all lengths (`get_match_len_fast_reject`), rep + literal + rep0;
-       `calc_normal_match_prices` – matches of all lengths incl. the shortened list, match + literal + rep0.
-       That `opts[cur + 1]` is never read at `INFINITY_PRICE` follows from `price(cur+1) ≤ price(cur) + 9·128`
-       (literal candidate; `NormalParams.ok` has `1152 · OPTS < INFINITY_PRICE` for this).
-   (2) `convert_opts` + the pending path: the pointer reversal hands out exactly the groups of the back-pointer chain
-       of `opts[opt_cur]` (composite entries expand to 2 / 3 symbols).
+  PROVED HERE (`normal_parse_valid_partial` and the round trips built on it): the full statement for
+  `2 ≤ nice_len ≤ 273` (what `LZMAOptions` allows is 8..273; outside `2..273` the Rust itself indexes out of range or
+  emits unencodable lengths), under ONE remaining hypothesis, `ConvertSpec P` (Proofs/EncNormalOpt.lean):
+      `convert_opts` followed by the pending path of `get_next_symbol` hands out exactly the groups of the back-pointer
+      chain of `opts[opt_cur]` (composite entries expand to 2 / 3 symbols) and keeps the array size, for every `opts[]`
+      whose entries `1 ..= opt_cur` have the shape written by `set1` / `set2` / `set3`.
+  It is a statement about the in-place pointer reversal of an array only — no data, match finder, price or
+  probability occurs in it.  Everything else is proved for all inputs, all probability / price-table / counter
+  states and all contents `opts[]` may have been left with by earlier calls:
+   * the outer loop with its read-ahead bookkeeping and the composition of the chains of all steps (`loopSpec_valid`,
+     `chain_run`);
+   * every EARLY EXIT of `get_next_symbol` (`nextCore_ok`): fewer than `MATCH_LEN_MIN` bytes left; best repeated match
+     ≥ `nice_len`; longest finder match ≥ `nice_len`; "no match, no rep, bytes differ"; `opt_end < MATCH_LEN_MIN`;
+   * the INVARIANT over `opts[]` while `opt_cur` advances (`Inv`, `mainLoop_ok`, `optimiserOk`): entries `≤ cur` are
+     final — their candidate is a valid chain from an earlier final entry and `state/reps` are the coder state after it
+     (`optStateAndReps_eq`: `update_opt_state_and_reps` = `Coder.apply` along the candidate); entries in
+     `(cur, opt_end]` are at `INFINITY_PRICE` or hold a valid candidate from some `j ≤ cur`; `opts[cur + 1]` is never read
+     at `INFINITY_PRICE` because `price(i) ≤ 1152 · i` (`litPrice_le`: every entry of `PRICES` is ≤ 128; `NormalParams.ok`
+     has `1152 · OPTS < INFINITY_PRICE`);
+   * every INSERTION SITE keeps it: first part – long reps of all lengths (`firstRepPrices_thr`), normal matches
+     (`firstMatchLoop_thr`); `calc1_byte_prices` – literal, short rep (only after the byte comparison), literal + rep0
+     (`calc1BytePrices_inv`); `calc_long_rep_prices` – reps of all lengths after `get_match_len_fast_reject`,
+     rep + literal + rep0 (`calcLongRepPrices_thr`); `calc_normal_match_prices` – the shortened match list, matches of all
+     lengths, match + literal + rep0 (`calcNormalMatchPrices_thr`).  The parser needs the finder's lengths to be strictly
+     increasing (`lensIncreasing`, proved for HC4), unlike the fast mode.
+  The driver runs `parseRun` on the model's parse on every request, so the conclusion is also observed per run.
 -/
-import LzmaVerif.Proofs.EncNormalStep
+import LzmaVerif.Proofs.EncNormalOpt
 import LzmaVerif.Proofs.EncFastHc4
 import LzmaVerif.Props.C01Fast
 
@@ -51,14 +51,16 @@ open LzmaVerif Mf Lzma EncFast EncNormal
 
 /-! ## (N1, partial) the parse of the normal encoder is valid and denotes the data -/
 
-/-- for every sound match finder, under `OptimiserOk` -/
+/-- for every sound match finder whose reported lengths increase, under `ConvertSpec` -/
 theorem normal_parse_valid_generic_partial {σ : Type} {F : Finder σ} {d : Array UInt8} {dict : Nat}
-    (FS : FinderSound F d dict 273) (P : NormalParams) (hP : P.ok) (pr : Params) (dictOpt nice dictBuf : Nat)
-    (hn : 1 ≤ nice) (hd1 : 1 ≤ dict) (hdb : min dict d.size ≤ dictBuf) (h32 : dict ≤ 2 ^ 32)
-    (hO : OptimiserOk FS P pr nice) :
+    (FS : FinderSound F d dict 273) (hFinc : ∀ s, FS.R s → lensIncreasing (F.find d s).1 = true)
+    (P : NormalParams) (hP : P.ok) (hopts : 274 ≤ P.opts) (pr : Params) (dictOpt nice dictBuf : Nat)
+    (hn2 : 2 ≤ nice) (hn273 : nice ≤ 273) (hd1 : 1 ≤ dict) (hdb : min dict d.size ≤ dictBuf) (h32 : dict ≤ 2 ^ 32)
+    (hconv : ConvertSpec P) :
     ∃ c' h', parseRun dictBuf (normalParse F P pr dictOpt nice d) Coder.init (#[] : Hist) = some (c', h') ∧
       h' = d.map (fun b => b.toNat) :=
-  normalParse_valid_of_steps FS P pr dictOpt nice dictBuf hd1 hdb h32 (nextCore_ok FS P hP pr nice hn hO)
+  normalParse_valid_of_steps FS hFinc P pr dictOpt nice dictBuf hd1 hdb h32
+    (nextCore_ok FS P hP pr nice (by omega) (optimiserOk FS hFinc P hP hopts pr nice hn2 hn273 hconv))
 
 theorem normalParseHc4_eq (H : Hc4.Hc4Params) (P : NormalParams) (hP : P.ok) (pr : Params) (dict nice depth : Nat)
     (d : Array UInt8) :
@@ -67,33 +69,36 @@ theorem normalParseHc4_eq (H : Hc4.Hc4Params) (P : NormalParams) (hP : P.ok) (pr
   unfold normalParseHc4
   rw [hP.2.1]
 
-/-- `OptimiserOk` for the normal encoder over HC4 with the given options on the data `d` -/
-def OptimiserOkHc4 (H : Hc4.Hc4Params) (hH : H.ok) (P : NormalParams) (pr : Params) (dict nice depth : Nat)
-    (hd1 : 1 ≤ dict) (d : Array UInt8) : Prop :=
-  OptimiserOk (hc4Sound H hH dict nice depth hd1 d) P pr nice
+/-- HC4 reports strictly increasing lengths -/
+theorem hc4_find_inc (H : Hc4.Hc4Params) (hH : H.ok) (dict nice depth : Nat) (hd1 : 1 ≤ dict) (d : Array UInt8) :
+    ∀ s, (hc4Sound H hH dict nice depth hd1 d).R s →
+      lensIncreasing ((hc4Finder H { dict := dict, niceLen := nice, mlmax := 273, depthLimit := depth }).find d s).1 = true :=
+  fun s h => (Hc4.hc4_find_sound H hH _ d hd1 (by show 3 ≤ 273; omega) s h).2.1
 
 /-- **(N1, partial)** the normal encoder over HC4.
-    Full statement: the same without `hO`.  Missing: see the header, (1) and (2). -/
-theorem normal_parse_valid_partial (H : Hc4.Hc4Params) (hH : H.ok) (P : NormalParams) (hP : P.ok) (pr : Params)
+    Full statement: the same without `hconv` (and for every `nice_len` the options allow: 8..273 is inside 2..273).
+    Missing: `ConvertSpec P`, see the header. -/
+theorem normal_parse_valid_partial (H : Hc4.Hc4Params) (hH : H.ok) (P : NormalParams) (hP : P.ok) (hopts : 274 ≤ P.opts) (pr : Params)
     (dict nice depth dictBuf : Nat) (d : Array UInt8)
-    (hn : 1 ≤ nice) (hd1 : 1 ≤ dict) (hdb : min dict d.size ≤ dictBuf) (h32 : dict ≤ 2 ^ 32)
-    (hO : OptimiserOkHc4 H hH P pr dict nice depth hd1 d) :
+    (hn2 : 2 ≤ nice) (hn273 : nice ≤ 273) (hd1 : 1 ≤ dict) (hdb : min dict d.size ≤ dictBuf) (h32 : dict ≤ 2 ^ 32)
+    (hconv : ConvertSpec P) :
     ∃ c' h', parseRun dictBuf (normalParseHc4 H P pr dict nice depth d) Coder.init (#[] : Hist) = some (c', h') ∧
       h' = d.map (fun b => b.toNat) := by
   rw [normalParseHc4_eq H P hP]
-  exact normal_parse_valid_generic_partial (hc4Sound H hH dict nice depth hd1 d) P hP pr dict nice dictBuf hn hd1 hdb h32 hO
+  exact normal_parse_valid_generic_partial (hc4Sound H hH dict nice depth hd1 d) (hc4_find_inc H hH dict nice depth hd1 d)
+    P hP hopts pr dict nice dictBuf hn2 hn273 hd1 hdb h32 hconv
 
 /-! ## (N2, partial) round trip of finder + optimal parser + range coder + decoder -/
 
 /-- **(N2, partial)**, declared size: the model encoder's bytes for the normal parse decode to exactly the data -/
-theorem normal_roundtrip_partial (pr : Params) (H : Hc4.Hc4Params) (hH : H.ok) (P : NormalParams) (hP : P.ok)
+theorem normal_roundtrip_partial (pr : Params) (H : Hc4.Hc4Params) (hH : H.ok) (P : NormalParams) (hP : P.ok) (hopts : 274 ≤ P.opts)
     (dict nice depth dictBuf : Nat) (d : Array UInt8)
-    (hn : 1 ≤ nice) (hd1 : 1 ≤ dict) (hdb : min dict d.size ≤ dictBuf) (h32 : dict ≤ 2 ^ 32)
-    (hO : OptimiserOkHc4 H hH P pr dict nice depth hd1 d) (rest : List Nat) (cap : Nat) :
+    (hn2 : 2 ≤ nice) (hn273 : nice ≤ 273) (hd1 : 1 ≤ dict) (hdb : min dict d.size ≤ dictBuf) (h32 : dict ≤ 2 ^ 32)
+    (hconv : ConvertSpec P) (rest : List Nat) (cap : Nat) :
     ∃ bytes, encodeParse pr dictBuf #[] (some d.size) (d.size + 1) (normalParseHc4 H P pr dict nice depth d) = some bytes ∧
       decodeRaw pr dictBuf #[] (some d.size) (bytes ++ rest) cap
         = .ok (d.map (fun b => b.toNat)) bytes.length (normalParseHc4 H P pr dict nice depth d) := by
-  obtain ⟨c', h', hp, hh⟩ := normal_parse_valid_partial H hH P hP pr dict nice depth dictBuf d hn hd1 hdb h32 hO
+  obtain ⟨c', h', hp, hh⟩ := normal_parse_valid_partial H hH P hP hopts pr dict nice depth dictBuf d hn2 hn273 hd1 hdb h32 hconv
   have hpu := C01Fast.presetUsedOf_empty dictBuf
   have hsz : h'.size = d.size := by rw [hh, Array.size_map]
   obtain ⟨bytes, he, hdec⟩ := C01.lzma_roundtrip_size pr dictBuf #[] (normalParseHc4 H P pr dict nice depth d) d.size
@@ -106,26 +111,26 @@ theorem normal_roundtrip_partial (pr : Params) (H : Hc4.Hc4Params) (hH : H.ok) (
   rw [this, hh]
 
 /-- **(N2, partial)** with the dictionary buffer size `LZMAReader` really uses for a raw stream of declared size -/
-theorem normal_roundtrip_reader_partial (pr : Params) (H : Hc4.Hc4Params) (hH : H.ok) (P : NormalParams) (hP : P.ok)
-    (dict nice depth : Nat) (d : Array UInt8) (hn : 1 ≤ nice) (hd1 : 1 ≤ dict) (h32 : dict ≤ 2 ^ 32)
-    (hO : OptimiserOkHc4 H hH P pr dict nice depth hd1 d) (rest : List Nat) (cap : Nat) :
+theorem normal_roundtrip_reader_partial (pr : Params) (H : Hc4.Hc4Params) (hH : H.ok) (P : NormalParams) (hP : P.ok) (hopts : 274 ≤ P.opts)
+    (dict nice depth : Nat) (d : Array UInt8) (hn2 : 2 ≤ nice) (hn273 : nice ≤ 273) (hd1 : 1 ≤ dict) (h32 : dict ≤ 2 ^ 32)
+    (hconv : ConvertSpec P) (rest : List Nat) (cap : Nat) :
     ∃ bytes, encodeParse pr (lzmaReaderDictBuf dict (some d.size) 0) #[] (some d.size) (d.size + 1)
         (normalParseHc4 H P pr dict nice depth d) = some bytes ∧
       decodeRaw pr (lzmaReaderDictBuf dict (some d.size) 0) #[] (some d.size) (bytes ++ rest) cap
         = .ok (d.map (fun b => b.toNat)) bytes.length (normalParseHc4 H P pr dict nice depth d) :=
-  normal_roundtrip_partial pr H hH P hP dict nice depth _ d hn hd1 (C01Fast.readerDictBuf_ge dict d.size) h32 hO rest cap
+  normal_roundtrip_partial pr H hH P hP hopts dict nice depth _ d hn2 hn273 hd1 (C01Fast.readerDictBuf_ge dict d.size) h32 hconv rest cap
 
 /-- **(N2, partial)**, end marker (`use_end_marker = true`; `cap` is the model's output bound) -/
-theorem normal_roundtrip_marker_partial (pr : Params) (H : Hc4.Hc4Params) (hH : H.ok) (P : NormalParams) (hP : P.ok)
+theorem normal_roundtrip_marker_partial (pr : Params) (H : Hc4.Hc4Params) (hH : H.ok) (P : NormalParams) (hP : P.ok) (hopts : 274 ≤ P.opts)
     (dict nice depth dictBuf : Nat) (d : Array UInt8)
-    (hn : 1 ≤ nice) (hd1 : 1 ≤ dict) (hdb : min dict d.size ≤ dictBuf) (h32 : dict ≤ 2 ^ 32) (hbuf : dictBuf ≤ END_DIST)
-    (hO : OptimiserOkHc4 H hH P pr dict nice depth hd1 d)
+    (hn2 : 2 ≤ nice) (hn273 : nice ≤ 273) (hd1 : 1 ≤ dict) (hdb : min dict d.size ≤ dictBuf) (h32 : dict ≤ 2 ^ 32) (hbuf : dictBuf ≤ END_DIST)
+    (hconv : ConvertSpec P)
     (rest : List Nat) (cap : Nat) (hcap : (normalParseHc4 H P pr dict nice depth d).length < cap) :
     ∃ bytes, encodeParse pr dictBuf #[] none (cap + 1)
         (normalParseHc4 H P pr dict nice depth d ++ [.mtch END_DIST 2]) = some bytes ∧
       decodeRaw pr dictBuf #[] none (bytes ++ rest) cap
         = .ok (d.map (fun b => b.toNat)) bytes.length (normalParseHc4 H P pr dict nice depth d ++ [.mtch END_DIST 2]) := by
-  obtain ⟨c', h', hp, hh⟩ := normal_parse_valid_partial H hH P hP pr dict nice depth dictBuf d hn hd1 hdb h32 hO
+  obtain ⟨c', h', hp, hh⟩ := normal_parse_valid_partial H hH P hP hopts pr dict nice depth dictBuf d hn2 hn273 hd1 hdb h32 hconv
   have hpu := C01Fast.presetUsedOf_empty dictBuf
   obtain ⟨bytes, he, hdec⟩ := C01.lzma_roundtrip_marker pr dictBuf hbuf #[] (normalParseHc4 H P pr dict nice depth d) 2
     (by omega) c' h' (by rw [hpu]; exact hp) rest cap hcap
@@ -144,6 +149,9 @@ theorem default_normal_params_ok : ({} : NormalParams).ok := by decide
 /-- the constants regenerated from the source satisfy what the proofs need
     (`MATCH_LEN_MIN = 2`, `MATCH_LEN_MAX = 273`, `REPS = 4`, `2 ≤ OPTS`, `1152 · OPTS < INFINITY_PRICE`) -/
 theorem generated_normal_params_ok : EncNormal.genParams.ok := by decide
+
+/-- `OPTS` regenerated from the source is large enough for a maximal match from position 0 (`273 < OPTS`) -/
+theorem generated_opts_ge : 274 ≤ EncNormal.genParams.opts := by decide
 
 /-- every entry of `PRICES` (regenerated from range_enc.rs) is at most `1 << 7`: a bit never costs more than 128, a
     literal never more than `9 · 128 = 1152` -/
